@@ -58,3 +58,25 @@ Fixpoint read_handshake (c : cfg) (frames : list bytes) : hres :=
           end
       end
   end.
+
+(** ---- the same reader with time: frames carry their arrival offset (ns after the call, non-decreasing); the
+    reader sets ONE absolute deadline D before its loop (500 ms in sack_driver.go) and never re-arms it *)
+Fixpoint read_handshake_timed (c : cfg) (D : Z) (frames : list (Z * bytes)) : hres * Z :=
+  match frames with
+  | [] => (HTimeout, D)
+  | (a, f) :: r =>
+      if D <=? a then (HTimeout, D)
+      else match frame_parse f with
+           | PEmpty => (HError, a)
+           | PSkip => read_handshake_timed c D r
+           | PView v =>
+               match handle_handshake c v with
+               | HIgnore => read_handshake_timed c D r
+               | HDone s => (HEstablished s, a)
+               | HNoSack => (HNotSupported, a)
+               | HBadTs => (HError, a)
+               end
+           end
+  end.
+
+Definition handshake_read_timeout : Z := 500000000.
